@@ -22,6 +22,8 @@ func XMultiSameMethod() *spec.Spec {
 // Extended returns the extended families (everything beyond the documented core combinations).
 func Extended(thorough bool) []*spec.Spec {
 	out := []*spec.Spec{XMultiSameMethod(), XCrossFile(), XTwoServiceFiles(), XTimestampCards(), XTimestampCardsFmt(), XEmptyOrders(), XOneofSiblings(), XSharedMethodHeader(), XQuotedHeaderTexts(), XQuotedAnnotationValues(), XForeignResponse(), XSameNamedNestedEnums(), XOneofVariantShapes(), XInt64Cards(), XHeaderNameShapes()}
+	out = append(out, XAnnotationCards()...)
+	out = append(out, XIdentifierShapes()...)
 	out = append(out, CtxSpecs()...)
 	out = append(out, RouteSpecs(thorough)...)
 	out = append(out, BindSpecs(thorough)...)
@@ -325,7 +327,106 @@ func XHeaderNameShapes() *spec.Spec {
 		spec.Svc("HyphenService", "/hh",
 			spec.RPC("One", "Req", "Out", "POST", "/one").H(h("X-RequestID"), h("X-Rate-Limit-1")),
 			spec.RPC("Two", "Req", "Out", "POST", "/two").H(h("X-Request-ID"), h("X-Rate-Limit1")),
+			// names that differ in letter case only, at service + method level and twice at method level
+			spec.RPC("Three", "Req", "Out", "POST", "/three").H(h("X-Request-Id"), h("x-type"), h("X-Corr-ID"), h("X-Corr-Id"), h("x-corr-id")),
 		).H(h("X-Request-ID"), h("X-Type"), h("X-Func"), h("X-2FA-Code")),
 	}}
 	return withCell(spec.One("x_header_name_shapes", f), "ext/unit=header_name_shapes", "extended", "valid")
+}
+
+// XAnnotationCards: the cardinality family of the field-level codec annotations other than int64_encoding (XInt64Cards): each
+// annotation on every cardinality a field of its kind can have - singular, proto3 optional, repeated, member of a real oneof -
+// one unit per (annotation, cardinality) so that a cardinality the generators cannot handle blocks only its own unit; every
+// message also carries the same annotation on a plain singular field and an unannotated field of the same kind.
+func XAnnotationCards() []*spec.Spec {
+	type ann struct {
+		name string
+		mk   func(n string) *spec.Field
+	}
+	mood := func() *spec.Enum {
+		return &spec.Enum{Name: "Mood", Values: []*spec.EnumValue{{Name: "MOOD_UNSPECIFIED", Num: 0, Custom: spec.Str("none")}, {Name: "MOOD_UP", Num: 1, Custom: spec.Str("up")}, {Name: "MOOD_DOWN", Num: 2}}}
+	}
+	anns := []ann{
+		{"bytes_hex", func(n string) *spec.Field { return spec.F(n, "bytes").BEnc(spec.BytesHex) }},
+		{"bytes_b64url", func(n string) *spec.Field { return spec.F(n, "bytes").BEnc(spec.BytesB64URL) }},
+		{"ts_unix_ms", func(n string) *spec.Field { return spec.Ts(n).TsF(spec.TsUnixMs) }},
+		{"ts_date", func(n string) *spec.Field { return spec.Ts(n).TsF(spec.TsDate) }},
+		{"enum_custom", func(n string) *spec.Field { return spec.En(n, "Mood") }},
+		{"enum_number", func(n string) *spec.Field { return spec.En(n, "Level").EEnc(spec.EncNumber) }},
+	}
+	var out []*spec.Spec
+	for _, a := range anns {
+		for _, card := range []string{"optional", "repeated", "oneof_member"} {
+			if card == "optional" && strings.HasPrefix(a.name, "ts_") {
+				continue // a message field has presence already; proto3 optional adds nothing
+			}
+			if card == "repeated" && strings.HasPrefix(a.name, "ts_") {
+				continue // timestamp_format on repeated fields: unit timestamp_format_repeated
+			}
+			m := spec.M("Cards", spec.F("id", "string"), a.mk("plain"))
+			switch card {
+			case "optional":
+				m.Fields = append(m.Fields, a.mk("maybe").Opt())
+			case "repeated":
+				m.Fields = append(m.Fields, a.mk("many").Rep())
+			case "oneof_member":
+				m.Fields = append(m.Fields, a.mk("picked").In("choice"), spec.F("label", "string").In("choice"))
+				m.WithOneof(&spec.Oneof{Name: "choice"})
+			}
+			f := &spec.File{Enums: []*spec.Enum{mood(), spec.E("Level", "LEVEL_UNSPECIFIED", "LEVEL_LOW", "LEVEL_HIGH")}, Messages: []*spec.Message{m},
+				Services: []*spec.Service{EchoService("CardService", "Cards")}}
+			name := "x_cards_" + a.name + "_" + card
+			out = append(out, withCell(spec.One(name, f), "cards/ann="+a.name+",card="+card, "extended", "valid", "codec"))
+		}
+	}
+	return out
+}
+
+// identShapes are legal protobuf identifiers that stress case conversion: an empty segment at either end or in the middle,
+// digits, one letter, an upper-case run, reserved words of Go and TypeScript.
+var identShapes = []string{"payload_", "_payload", "event__payload", "x", "f2x", "a_1_b", "HTTPUrl", "type", "func", "class", "default", "new"}
+
+// XIdentifierShapes: the identifier-shape family, one unit per kind of named thing so that a failure is attributable:
+// plain field names; names of a flattened discriminated, a nested discriminated and a plain oneof; nested message and enum
+// names. (Method names: route/unit=method_name_shapes; header names: ext/unit=header_name_shapes.)
+func XIdentifierShapes() []*spec.Spec {
+	var out []*spec.Spec
+	{
+		m := spec.M("Named")
+		for _, n := range identShapes {
+			m.Fields = append(m.Fields, spec.F(n, "string"))
+		}
+		f := &spec.File{Messages: []*spec.Message{m}, Services: []*spec.Service{EchoService("FieldNameService", "Named")}}
+		out = append(out, withCell(spec.One("x_ident_fields", f), "ident/thing=field", "extended", "valid", "codec"))
+	}
+	for _, style := range []string{"flat", "nested", "plain"} {
+		var msgs []*spec.Message
+		var names []string
+		msgs = append(msgs, spec.M("TextContent", spec.F("body", "string")), spec.M("ImageContent", spec.F("url", "string")))
+		for i, n := range identShapes {
+			o := &spec.Oneof{Name: n}
+			switch style {
+			case "flat":
+				o.Config, o.Disc, o.Flatten = true, "kind", true
+			case "nested":
+				o.Config, o.Disc = true, "kind"
+			}
+			mn := fmt.Sprintf("Holder%d", i)
+			msgs = append(msgs, spec.M(mn, spec.F("id", "string"), spec.Msg("text", "TextContent").In(n), spec.Msg("image", "ImageContent").In(n)).WithOneof(o))
+			names = append(names, mn)
+		}
+		f := &spec.File{Messages: msgs, Services: []*spec.Service{EchoService("OneofNameService", names...)}}
+		out = append(out, withCell(spec.One("x_ident_oneof_"+style, f), "ident/thing=oneof,style="+style, "extended", "valid", "codec"))
+	}
+	{
+		outer := spec.M("Outer", spec.F("id", "string"))
+		for i, n := range []string{"Inner_", "inner", "I", "Inner__Deep", "Type", "I2x"} {
+			outer.Messages = append(outer.Messages, spec.M(n, spec.F("v", "string")))
+			outer.Enums = append(outer.Enums, spec.E("E"+n, "E"+strings.ToUpper(n)+"_UNSPECIFIED", "E"+strings.ToUpper(n)+"_ONE"))
+			outer.Fields = append(outer.Fields, spec.Msg(fmt.Sprintf("m%d", i), "Outer."+n), spec.En(fmt.Sprintf("e%d", i), "Outer.E"+n))
+		}
+		f := &spec.File{Messages: []*spec.Message{outer}, Services: []*spec.Service{EchoService("NestedNameService", "Outer")}}
+		out = append(out, withCell(spec.One("x_ident_nested_types", f), "ident/thing=nested_type", "extended", "valid", "codec"))
+	}
+	return out
 }
